@@ -10,7 +10,10 @@ instruction is proved to implement one transition of that state machine; `_post_
 hand every instruction the settings in force when it is called.  See DESIGN.md / C11."""
 import re
 
-import z3
+try:
+    import z3
+except ImportError:      # replay scripts run under the repository's interpreter, without z3
+    z3 = None
 
 from pyvc.api import (Module, Interface, Method, Iface, Inst, Int, Nat, Bool, Str, Opt, OneOf, Const, Union,
                       ListOf, FixedList, MapOf, Derived, Any_, EnumOf, Custom, new_opaque, assume_pred)
